@@ -56,10 +56,13 @@ Definition store_logs (s : lstore) (b : list entry) : option lstore :=
 Record env := { cancel_at : option nat;   (* ctx.Err() <> nil from this check on *)
                 get_fail : option N;      (* src.GetLog of this index fails      *)
                 store_fail : option nat;  (* the k-th dst.StoreLogs call fails   *)
+                first_fail : bool;        (* src.FirstIndex() returns an error (e.g. a closed WAL) *)
+                last_fail : bool;         (* src.LastIndex() returns an error    *)
                 has_progress : bool }.    (* progress channel is non-nil         *)
 
 Definition no_faults (p : bool) : env :=
-  {| cancel_at := None; get_fail := None; store_fail := None; has_progress := p |}.
+  {| cancel_at := None; get_fail := None; store_fail := None;
+     first_fail := false; last_fail := false; has_progress := p |}.
 
 Definition cancelled (ev : env) (chk : nat) : bool :=
   match cancel_at ev with Some k => Nat.leb k chk | None => false end.
@@ -77,7 +80,7 @@ Definition dst_store (ev : env) (ncall : nat) (dst : lstore) (b : list entry) : 
   end.
 
 (* ---- CopyLogs -------------------------------------------------------------- *)
-Inductive cres := COk | CCanceled | CErrFirst | CErrGet | CErrStore | COutOfFuel.
+Inductive cres := COk | CCanceled | CErrFirst | CErrLast | CErrGet | CErrStore | COutOfFuel.
 
 (* what the function has done when it reaches a return statement *)
 Record cout := { o_res : cres;
@@ -139,11 +142,19 @@ Fixpoint copy_loop (fuel : nat) (ev : env) (src : lstore) (bb : Z) (last : N)
         end
   end.
 
-Definition copy_logs_body (ev : env) (bb : Z) (src dst : lstore) : cout :=
+(* after both index lookups succeeded *)
+Definition copy_logs_core (ev : env) (bb : Z) (src dst : lstore) : cout :=
   let first := first_index src in
   let last := last_index src in
   if (first =? 0) && (last =? 0) then ret COk dst [] 0      (* f32c8ec: empty source *)
   else copy_loop (S (S (length (ls_ents src)))) ev src bb last first 0 [] 0%Z dst [] 0.
+
+(* the body runs with the deferred close already installed: the two index
+   lookups and their error returns come AFTER the `defer` in the code *)
+Definition copy_logs_body (ev : env) (bb : Z) (src dst : lstore) : cout :=
+  if first_fail ev then ret CErrFirst dst [] 0        (* "failed getting first index" *)
+  else if last_fail ev then ret CErrLast dst [] 0     (* "failed getting last index"  *)
+  else copy_logs_core ev bb src dst.
 
 Definition copy_logs (ev : env) (bb : Z) (src dst : lstore) : cresult :=
   run_deferred ev (copy_logs_body ev bb src dst).
